@@ -787,17 +787,21 @@ class Backend(ABC):
             if result is not None:
                 queries.append(result)
 
-        # Apply the finalization step
-        finalized_queries = [
-            self.finalize_query(
-                rule,
-                query,
-                index,
-                states[index],
-                output_format or self.default_format,
-            )
-            for index, query in enumerate(queries)
-        ]
+        # Apply the finalization step if not part of another correlation rule
+        finalized_queries = (
+            [
+                self.finalize_query(
+                    rule,
+                    query,
+                    index,
+                    states[index],
+                    output_format or self.default_format,
+                )
+                for index, query in enumerate(queries)
+            ]
+            if self.finalize_correlation_subqueries or not rule._backreferences
+            else queries
+        )
         rule.set_conversion_result(finalized_queries)
         rule.set_conversion_states(states)
 
